@@ -43,6 +43,10 @@ def worker(job):
         problems.append(("accept", "batch size %d not divisible by %d devices was not rejected" % (B, ndev), None))
         return dict(cfg=cfg, problems=problems)
     perms_made = [t for t in w.trace if t[0] == "permutation"]
+    with_repl = [t for t in w.trace if t[0] == "choice_with_replacement"]
+    if with_repl:
+        problems.append(("index-vector", "the sample indices are drawn with replacement (jax.random.choice, replace=True is its default): a sample can appear several times in an epoch and others never", with_repl[0][3]))
+        return dict(cfg=cfg, problems=problems)
     if keyed:
         if len(perms_made) != 1 or perms_made[0][2] != L:
             problems.append(("index-vector", "%d permutations were drawn (sizes %s); exactly one permutation of range(L=%d) must order all co-batched multi-images" % (len(perms_made), [p[2] for p in perms_made], L), perms_made[1][3] if len(perms_made) > 1 else None))
